@@ -400,10 +400,13 @@ def make_call(rng, kind, w, on_host, k0, be=None, variant=None):
     raise ValueError(kind)
 
 
-def quick_cases(rng, max_w=12, reps=1):
+def quick_cases(rng, max_w=12, reps=1, extra_widths=(), heavy_cap=None):
     """the systematic part: every kind x every width x bare/host x both endiannesses and every
-    add_outputs / result_labels option"""
+    add_outputs / result_labels option.  Widths 1..max_w plus extra_widths; the quadratic-size
+    generators (div_mod, sqrt) are run on host circuits only up to heavy_cap"""
     cases = []
+    heavy_cap = max_w if heavy_cap is None else heavy_cap
+    widths = list(range(1, max_w + 1)) + [w for w in extra_widths if w > max_w]
 
     def k0():
         return rng.choice([1, 1, 2, 5, 16, 255])
@@ -419,10 +422,12 @@ def quick_cases(rng, max_w=12, reps=1):
         cases.append(make_call(rng, kind, 0, True, k0(), variant=1))
         cases.append(make_call(rng, kind, 0, True, k0(), variant=4))
     for _ in range(reps):
-        for w in range(1, max_w + 1):
+        for w in widths:
             for on_host in (False, True):
                 for be in (False, True):
                     for kind in ('sub', 'subcmp', 'sum2', 'divmod', 'sqrt'):
+                        if kind in ('divmod', 'sqrt') and w > heavy_cap and (on_host or be):
+                            continue
                         cases.append(make_call(rng, kind, w, on_host, k0(), be=be))
                     for kind in ('sub', 'subcmp', 'sum2'):
                         cases.append(make_call(rng, kind, w, on_host, k0(), be=be, variant='uneq'))
